@@ -142,6 +142,9 @@ func (g *c18G) genFile(f *c18File, level int) {
 			im.Tag = fmt.Sprintf("t%d", r.IntN(3))
 		}
 		im.Style = r.IntN(4)
+		if r.IntN(6) == 0 {
+			im.Style |= 4
+		}
 		if im.K == "data" {
 			usedVar[im.As] = true
 		} else if im.K == "import" {
